@@ -26,6 +26,7 @@ RULE = (
     "consumed; distinct by sha1 of the program."
 )
 ASSUMPTIONS = [
+    "fault clause: a deferred object whose evaluation raised is expected to behave like the eager call when evaluated again (raise again while the node still fails, return the eager value once it succeeds)",
     "picker nodes that pipefunc inserts for tuple outputs are contracted; picker nodes nobody consumes are ignored",
     "HybridCache is not combined with lazy=True (pipefunc warns that durations are meaningless there)",
 ]
@@ -184,6 +185,88 @@ def body(data) -> Outcome:
                 _check_log(out, tag, list(log), calls2, m)
                 if tg is not None:
                     _graph_check(out, tag, tg, m, calls2)
+    # ---- several requests inside ONE construct_dag(): equal roots, one of them overriding an intermediate ----------
+    for ti, t in enumerate(targets):
+        if isinstance(t, tuple) or (pick + ti) % 3:
+            continue
+        cone = m.cone(t)
+        inter = [o for f in cone for o in m.funcs[f]["outs"] if o != t and m.funcs[f]["name"] != m.producer[t]["name"]]
+        if not inter:
+            continue
+        o = inter[(pick >> 3) % len(inter)]
+        roots = m.needed_roots(t)
+        kw = {r: f"V{r}" for r in roots}
+        kw_cut = {k: v for k, v in kw.items() if k in m.touched(t, (o,))}
+        kw_cut[o] = f"S:{o}"
+        try:
+            want_a, _, _, _, calls_a, _ = m.evaluate(t, kw)
+            want_b, _, _, _, calls_b, used_b = m.evaluate(t, kw_cut)
+        except Exception:
+            continue
+        if o not in used_b:
+            continue
+        units += 1
+        del log[:]
+        try:
+            p = build_pipeline(prog, log, lazy=True, cache_type=cache_type)
+            order = [(kw, want_a), (kw_cut, want_b), (kw, want_a)] if pick % 2 else [(kw_cut, want_b), (kw, want_a)]
+            with construct_dag():
+                lazies = [p(t, **k) for k, _ in order]
+            vals = [lz.evaluate() for lz in lazies]
+        except Exception as e:
+            out.fail(exc_bucket(e, "dag-multi-raised"), exc_detail(e))
+            continue
+        for (k, want_v), got in zip(order, vals):
+            if got != want_v:
+                out.fail("dag-multi-request-value", f"{t} {sorted(k)}: got {got!r} want {want_v!r} (requests in one construct_dag: {[sorted(x) for x, _ in order]})")
+                break
+        out.labels.append("dag-multi")
+
+    # ---- a failing node: evaluate() must behave like the eager call, also when evaluated again ---------------------
+    ti = pick % len(targets)
+    t = targets[ti]
+    if not isinstance(t, tuple):
+        roots = m.needed_roots(t)
+        kw = {r: f"V{r}" for r in roots}
+        want, executed, _, _, calls, _ = m.evaluate(t, kw)
+        victim = executed[(pick >> 5) % len(executed)]
+        transient = bool((pick // 3) % 2)
+        state = {"n": 0}
+
+        def fail(fname, a):
+            if fname == victim:
+                state["n"] += 1
+                if not transient or state["n"] == 1:
+                    raise RuntimeError(f"injected failure in {fname}")
+
+        units += 1
+        del log[:]
+        try:
+            p = build_pipeline(prog, log, fail=fail, lazy=True, cache_type=None)
+            lz = p(t, **kw)
+        except Exception as e:
+            out.fail(exc_bucket(e, "fault-call-raised"), exc_detail(e))
+            lz = None
+        if lz is not None:
+            out.labels.append("fault-transient" if transient else "fault-permanent")
+            try:
+                r1 = lz.evaluate()
+                out.fail("fault-first-evaluate-did-not-raise", repr(r1)[:200])
+            except RuntimeError:
+                pass
+            except Exception as e:
+                out.fail(exc_bucket(e, "fault-wrong-exception"), exc_detail(e))
+            try:
+                r2 = lz.evaluate()
+                if not transient:
+                    out.fail("fault-second-evaluate-returned-although-node-still-fails", repr(r2)[:200])
+                elif r2 != want:
+                    out.fail("fault-retry-value", f"got {r2!r} want {want!r}")
+            except RuntimeError:
+                if transient:
+                    out.fail("fault-retry-raised-although-failure-was-transient", "")
+            except Exception as e:
+                out.fail(exc_bucket(e, "fault-retry-wrong-exception"), exc_detail(e))
     out.units = units
     return out
 
